@@ -10,6 +10,7 @@ import (
 	"path/filepath"
 	"sort"
 	"strings"
+	"sync"
 
 	"golang.org/x/tools/go/packages"
 	"golang.org/x/tools/go/ssa"
@@ -24,6 +25,7 @@ type Program struct {
 	Lay     Layouts
 	Fset    *packages.Package
 	RepoDir string
+	mu      sync.RWMutex
 }
 
 type BlkInfo struct {
@@ -99,11 +101,25 @@ func isReg(v ssa.Value) bool {
 }
 
 func (p *Program) Info(fn *ssa.Function) *FnInfo {
-	if fi, ok := p.fninfo[fn]; ok {
+	p.mu.RLock()
+	fi, ok := p.fninfo[fn]
+	p.mu.RUnlock()
+	if ok {
 		return fi
 	}
+	fi = p.buildInfo(fn)
+	p.mu.Lock()
+	if old, ok := p.fninfo[fn]; ok {
+		fi = old
+	} else {
+		p.fninfo[fn] = fi
+	}
+	p.mu.Unlock()
+	return fi
+}
+
+func (p *Program) buildInfo(fn *ssa.Function) *FnInfo {
 	fi := &FnInfo{fn: fn, reg: map[ssa.Value]int{}}
-	p.fninfo[fn] = fi
 	add := func(v ssa.Value) {
 		if _, ok := fi.reg[v]; !ok {
 			fi.reg[v] = fi.nreg
